@@ -63,6 +63,31 @@ pub fn c04_clone<const N: usize>() {
     done(panicked);
 }
 
+/// Clone::clone_from with a panicking clone / destructor: an in-place implementation must not leave the destination
+/// half old, half new (duplicate keys, stale len); source untouched
+pub fn c04_clone_from<const N: usize>() {
+    tok::reset();
+    let (src, smd) = any_map::<N>();
+    let (mut dst, _dmd) = any_map::<N>();
+    arm();
+    let panicked = { let (d, s) = (&mut dst, &src); vf::catch(move || { d.clone_from(s); }) };
+    tok::disarm();
+    observe(&src, &smd);
+    if !panicked { observe_copy(&dst, &smd); }
+    survivor(&mut dst);
+    drop(dst);
+    drop(src);
+    // sets
+    let (ssrc, _) = any_set::<N>();
+    let (mut sdst, _) = any_set::<N>();
+    arm();
+    let p2 = { let (d, s) = (&mut sdst, &ssrc); vf::catch(move || { d.clone_from(s); }) };
+    survivor_set(&mut sdst);
+    drop(sdst);
+    drop(ssrc);
+    done(panicked || p2);
+}
+
 pub fn c04_clear<const N: usize>() {
     tok::reset();
     let (mut m, _md) = any_map::<N>();
@@ -353,13 +378,14 @@ pub fn c04_drops<const N: usize>() {
     tok::reset();
     let (mut m, _md) = any_map::<N>();
     let (which, j) = (vf::any_u8(), vf::any_usize());
-    vf::assume(which < 4);
+    vf::assume(which < 5);
     arm();
     let mut keep_map = true;
     let panicked = match which {
         0 => { keep_map = false; vf::catch(move || { drop(m_take(&mut m)); }) }
         1 => { keep_map = false; vf::catch(move || { let mut it = m_take(&mut m).into_iter(); let mut i = 0; while i < N { if i < j { drop(it.next()); } i += 1; } drop(it); }) }
         2 => { keep_map = false; vf::catch(move || { let mut it = m_take(&mut m).into_values(); let mut i = 0; while i < N { if i < j { drop(it.next()); } i += 1; } drop(it); }) }
+        4 => { keep_map = false; vf::catch(move || { let mut it = m_take(&mut m).into_keys(); let mut i = 0; while i < N { if i < j { drop(it.next()); } i += 1; } vf::check(it.len() <= N, 601); drop(it); }) }
         _ => {
             let mm = &mut m;
             let p = vf::catch(move || { let mut d = mm.drain(); let mut i = 0; while i < N { if i < j { drop(d.next()); } i += 1; } drop(d); });
@@ -426,6 +452,7 @@ pub fn c05_panics<const N: usize>() {
 
 harnesses! {
     c04_clone: [1] [2] [3];
+    c04_clone_from: [1] [2];
     c04_clear: [1] [2] [3];
     c04_retain: [1] [2] [3];
     c04_insert: [0] [1] [2] [3];
@@ -442,6 +469,7 @@ harnesses! {
     c05_panics: [0] [1] [2] [3];
     @deep
     c04_clone: [4] [5] [6];
+    c04_clone_from: [3];
     c04_clear: [4] [5] [6];
     c04_retain: [4] [5] [6];
     c04_insert: [4] [5];
